@@ -35,6 +35,11 @@ def atombase_lenient():
     return any(f["key"] == "logic-rhs-missing" for f in C.Findings("C01").open)
 
 
+def pyeq():
+    """`==`/`!=` on two non-atoms compared Python objects (C01 finding eq-nonatom-sides); the machine follows while it is open."""
+    return "TRUE" if any(f["key"] == "eq-nonatom-sides" for f in C.Findings("C01").open) else "FALSE"
+
+
 def mc_module(cf, maxlen, ncalls, reset, alpha, lenient=None):
     if lenient is None:
         lenient = cf["lenient"] and atombase_lenient()
@@ -70,6 +75,7 @@ MC_CFG = """CONSTANTS
   Probes <- MCProbes
   ResetOnBegin <- MCReset
   Lenient <- MCLenient
+  PyEq = %PYEQ%
 SPECIFICATION Spec
 INVARIANT Independent
 INVARIANT HistoryFresh
@@ -235,6 +241,7 @@ TRACE_CFG = """CONSTANTS
   Probes <- MCProbes
   ResetOnBegin <- MCReset
   Lenient <- MCLenient
+  PyEq = %PYEQ%
 SPECIFICATION TSpec
 INVARIANT Accept
 CHECK_DEADLOCK FALSE
@@ -263,7 +270,7 @@ def validate_traces(wd, cf, traces, tag):
     f = os.path.join(wd, f"traces-{tag}.json")
     json.dump(traces, open(f, "w"))
     open(os.path.join(wd, "SolverTraceMC.tla"), "w").write(trace_module(cf, True))
-    r = C.run_tlc(wd, "SolverTraceMC", TRACE_CFG, env={"TRACE_FILE": f}, want_records=False)
+    r = C.run_tlc(wd, "SolverTraceMC", TRACE_CFG.replace("%PYEQ%", "FALSE"), env={"TRACE_FILE": f}, want_records=False)
     acc = {int(m.group(1)) for m in re.finditer(r'<<"ACCEPT", (\d+)>>', r.stdout)}
     rej = [i for i in range(1, len(traces) + 1) if i not in acc]
     return acc, rej, r
@@ -302,7 +309,7 @@ def run(replay=None):
         ncalls = 2
         # 1a. the repaired algorithm: all histories
         open(os.path.join(wd, "SolverHistMC.tla"), "w").write(mc_module(cf, maxlen, ncalls, True, alpha))
-        r = C.run_tlc(wd, "SolverHistMC", MC_CFG.format(emit="INVARIANT EmitInv"))
+        r = C.run_tlc(wd, "SolverHistMC", MC_CFG.replace("%PYEQ%", pyeq()).format(emit="INVARIANT EmitInv"))
         if r.violated:
             V.notes.append(f"TLC[{name}]: {r.violated} violated on the spec of the current algorithm: {r.cex[:600]}")
         states += r.distinct; trans += r.generated
@@ -311,7 +318,7 @@ def run(replay=None):
             jobs.append((name, rec["plan"], rec["outs"]))
         # 1b. sensitivity: without the reset the spec must yield a counterexample
         open(os.path.join(wd, "SolverHistMC.tla"), "w").write(mc_module(cf, 2, 2, False, cf["alpha_q"]))
-        r0 = C.run_tlc(wd, "SolverHistMC", MC_CFG.format(emit=""), want_records=False)
+        r0 = C.run_tlc(wd, "SolverHistMC", MC_CFG.replace("%PYEQ%", pyeq()).format(emit=""), want_records=False)
         sens[name] = r0.violated or "none"
     # deeper random histories (no spec outcome: fresh-instance oracle only)
     for name, cf in CONFIGS.items():
